@@ -261,22 +261,22 @@ def writers(ctx, adt, field):
 
 
 def writeset(ctx):
+    from .. import frame
     A = 'crate (write set of nuts::NUTSChain adaptation fields)'
-    IC = ctx.helper_key('nuts.init_chain', 'nuts::NUTSChain::init_chain')
+    NEW, STEP, RUN, RP = 'nuts::NUTSChain::new', 'nuts::NUTSChain::step', 'nuts::NUTSChain::run', 'nuts::NUTS::run_progress'
+    INIT = {RUN, RP}      # the (private) warm-up initialisation is reached from NUTSChain::run and NUTS::run_progress; private helpers stand for their entry points
     exp = {
-        'epsilon': {('nuts::NUTSChain::new', 'ctor'), (IC, 'Assign'), ('nuts::NUTSChain::step', 'Assign')},
-        'epsilon_bar': {('nuts::NUTSChain::new', 'ctor'), ('nuts::NUTSChain::step', 'Assign')},
-        'm': {('nuts::NUTSChain::new', 'ctor'), ('nuts::NUTSChain::step', 'AssignOp')},
-        'n_discard': {('nuts::NUTSChain::new', 'ctor'), (IC, 'Assign')},
-        'h_bar': {('nuts::NUTSChain::new', 'ctor'), ('nuts::NUTSChain::step', 'Assign')},
-        'mu': {('nuts::NUTSChain::new', 'ctor'), (IC, 'Assign')},
-        'gamma': {('nuts::NUTSChain::new', 'ctor')}, 't_0': {('nuts::NUTSChain::new', 'ctor')}, 'kappa': {('nuts::NUTSChain::new', 'ctor')},
+        'epsilon': {NEW, STEP} | INIT, 'epsilon_bar': {NEW, STEP}, 'm': {NEW, STEP}, 'n_discard': {NEW} | INIT, 'h_bar': {NEW, STEP}, 'mu': {NEW} | INIT,
+        'gamma': {NEW}, 't_0': {NEW}, 'kappa': {NEW},
     }
     st = ctx.facts.structs.get(CH)
     vis = {f['name']: f['vis'] for f in st['fields']} if st else {}
+    w = frame.field_writers(ctx.facts, CH)
     for f, e in exp.items():
-        w = set(writers(ctx, CH, f))
+        got = w.get(f, set()) | w.get('*', set())
+        extra = sorted(x for x in got if x[0] not in e)
         private = 'Restricted' in vis.get(f, '')
-        ctx.check('C04.freeze.writers', A, f, w == e and private, expected='written only by %s; field private' % sorted(e), found='%s; visibility %s' % (sorted(w), vis.get(f)), sp=None,
+        ctx.check('C04.freeze.writers', A, f, not extra and private, expected='written only by %s (private helpers count for the entry points that reach them); field private' % sorted(e),
+                  found='%s; visibility %s' % (sorted(got) if not extra else 'also written by %s' % extra, vis.get(f)), sp=None,
                   why='freeze: with the guarded forms of step/init_chain checked above, no other code can change the step size, its average, the warm-up counter or the warm-up length; '
                       'hence once m > n_discard, eps = eps_bar and neither changes within a run')
